@@ -315,6 +315,8 @@ BLOCKS = {
     "dump": (b_dump, "dump"), "delete": (b_delete, "entities"), "runcells": (b_runcells, "entities"), "copy": (b_copy, "entities"),
     "spread": (b_spread, "entities"), "mixkw": (b_mixkw, "entities"),
 }
+COLUMN = ["transport", "advection", "runcells"]
+LOADING = ["kinetics", "surface", "gas", "ss"]
 HEAVY = ["knobs", "print", "selout", "transport", "advection", "incr", "userprint", "kinetics"]
 # blocks that do not go together in one simulation (keeps the discard rate low; found by measurement)
 EXCLUSIVE = [{"transport", "advection"}, {"transport", "gas"}, {"transport", "ss"}, {"transport", "surface"}, {"transport", "kinetics"},
@@ -349,7 +351,7 @@ def blocks_for_db(db):
 
 
 @st.composite
-def gen_input(draw, db, max_sims=2, history=True, nocopy=False, noruncells=False):
+def gen_input(draw, db, max_sims=2, history=True, nocopy=False, noruncells=False, loaded=False):
     """-> {"text":..., "tags":[...]}: 1..max_sims simulations, each with SOLUTION 0-12 and 1-4 option/entity blocks"""
     avail = blocks_for_db(db)
     if history and EXCLUDE_DUMP_IN_HISTORY:
@@ -360,9 +362,12 @@ def gen_input(draw, db, max_sims=2, history=True, nocopy=False, noruncells=False
         avail = [a for a in avail if a != "copy"]
     if noruncells:
         avail = [a for a in avail if a != "runcells"]
-    sims, tags = [], []
+    sims, tags, used = [], [], []
     for k in range(draw(st.integers(1, max_sims))):
-        weighted = avail + [a for a in avail if a in HEAVY] * 2
+        # Kinetic reactants / surfaces / gas phases / solid solutions that an earlier simulation or run left in the cells make a later
+        # column calculation arbitrarily slow (measured: > 15 min): once such entities exist, no TRANSPORT/ADVECTION/RUN_CELLS until a load
+        now = [a for a in avail if not (loaded and a in COLUMN)]
+        weighted = now + [a for a in now if a in HEAVY] * 2
         names = draw(st.lists(st.sampled_from(weighted), min_size=1, max_size=5, unique=True))
         keep = []
         for n in names:
@@ -372,9 +377,12 @@ def gen_input(draw, db, max_sims=2, history=True, nocopy=False, noruncells=False
         for n in keep:
             L += BLOCKS[n][0](draw, history) if n in ("knobs", "transport") else BLOCKS[n][0](draw)
             tags.append(BLOCKS[n][1])
+            used.append(n)
+            if n in LOADING:
+                loaded = True
         L.append("END")
         sims.append("\n".join(L))
-    return {"text": "\n".join(sims) + "\n", "tags": sorted(set(tags)), "blocks": sorted(set(tags))}
+    return {"text": "\n".join(sims) + "\n", "tags": sorted(set(tags)), "blocks": sorted(set(used))}
 
 
 # =============================================================================== history strategy
@@ -405,7 +413,7 @@ def setter_step(draw):
     return {"op": "sets", "fn": draw(st.sampled_from(["AddError", "AddWarning"])), "v": "c07 user message\n"}
 
 
-def run_step(draw, db, tier, slow_ok=True):
+def run_step(draw, db, tier, slow_ok=True, loaded=False):
     how = draw(st.sampled_from(["string", "string", "string", "file", "acc"]))
     k = draw(st.integers(0, 9))
     fast = ex_for_db(db, False)
@@ -415,11 +423,11 @@ def run_step(draw, db, tier, slow_ok=True):
     # examples that take > 0.12 s (and can leave kinetic reactants that make later runs of the history slow): thorough tier only
     if k == 3 and slow and slow_ok and tier != "quick" and draw(st.integers(0, 1)) == 0:
         return {"op": "run", "src": "ex:" + draw(st.sampled_from(slow)), "how": how, "tags": ["example"]}
-    g = draw(gen_input(db))
-    return {"op": "run", "text": g["text"], "how": how, "tags": g["tags"]}
+    g = draw(gen_input(db, loaded=loaded))
+    return {"op": "run", "text": g["text"], "how": how, "tags": g["tags"], "blocks": g["blocks"]}
 
 
-def fail_step(draw, db):
+def fail_step(draw, db, loaded=False):
     k = draw(st.integers(0, 11))
     if k == 0:
         return {"op": "run", "how": "file", "path": "c07_no_such_input.pqi", "tags": ["fail"], "fail": "missing_file"}
@@ -434,12 +442,14 @@ def fail_step(draw, db):
     pre = ""
     tags = ["fail"]
     if draw(st.booleans()):
-        g = draw(gen_input(db, 1, nocopy=EXCLUDE_COPY_IN_FAILING_CALL, noruncells=EXCLUDE_RUNCELLS_IN_FAILING_CALL))
+        g = draw(gen_input(db, 1, nocopy=EXCLUDE_COPY_IN_FAILING_CALL, noruncells=EXCLUDE_RUNCELLS_IN_FAILING_CALL, loaded=loaded))
         pre = g["text"]
         tags += g["tags"]
     # option blocks inside the failing simulation itself: they are read before the error stops the run
     inner = []
     for n in draw(st.lists(st.sampled_from(["knobs", "print", "title", "incr", "calc", "dump", "delete", "runcells", "copy", "selout", "spread", "mixkw"]), max_size=2, unique=True)):
+        if loaded and n in COLUMN:
+            continue
         if (n == "dump" and EXCLUDE_DUMP_IN_HISTORY) or (n == "copy" and EXCLUDE_COPY_IN_FAILING_CALL) or \
                 (n == "runcells" and EXCLUDE_RUNCELLS_IN_FAILING_CALL):
             continue
@@ -503,6 +513,7 @@ def case_strategy(draw, tier="quick"):
     if draw(st.integers(0, 19)) > 0:
         hist.append(load_step(draw))
     db = hist[0]["db"] if hist else None
+    loaded = False  # the cells hold kinetic reactants / surfaces / ... or whatever a shipped example left
     for _ in range(draw(st.integers(0, 5))):
         k = draw(st.integers(0, 9))
         if db is None or k <= 1:
@@ -511,13 +522,16 @@ def case_strategy(draw, tier="quick"):
             else:
                 hist.append(load_step(draw))
                 db = hist[-1]["db"]
+                loaded = False
         elif k <= 6:
-            hist.append(run_step(draw, db, tier))
+            hist.append(run_step(draw, db, tier, loaded=loaded))
+            if "src" in hist[-1] or set(hist[-1].get("blocks", [])) & set(LOADING):
+                loaded = True
         else:
             hist.append(setter_step(draw))
     fail = None
     if draw(st.integers(0, 2)) > 0:
-        fail = fail_step(draw, db) if db is not None else {"op": "run", "text": "SOLUTION 1\nEND\n", "how": "string", "tags": ["fail"], "fail": "no_database"}
+        fail = fail_step(draw, db, loaded) if db is not None else {"op": "run", "text": "SOLUTION 1\nEND\n", "how": "string", "tags": ["fail"], "fail": "no_database"}
     final = load_step(draw, draw(st.sampled_from(DB_WEIGHTED + ["phreeqc.dat"] * 12 + ["pitzer.dat"] * 3)))
     tags = sorted({t for s in hist + ([fail] if fail else []) for t in s.get("tags", [])})
     post = post_steps(draw, final["db"], tags)
